@@ -33,6 +33,8 @@ def run(ctx: Context) -> None:
 
 
 def sample_rules(ctx: Context) -> None:
+    from ..util import require_readable
+    require_readable(ctx.prog, ctx.prog.func(SAMPLE))
     prog = ctx.prog
     f = ctx.func(SAMPLE)
     g = CFG(f.node)
@@ -142,6 +144,8 @@ def sample_rules(ctx: Context) -> None:
 def finder_rules(ctx: Context) -> None:
     prog = ctx.prog
     f = ctx.func(FINDER)
+    from ..util import require_readable
+    require_readable(prog, f)
     if f.params[:2] != ["new_points", "existing_points"]:
         raise AnalysisError(f"anchor vanished: find_and_get_duplicates(new_points, existing_points), got {f.params}")
     n = normaliser(prog, f)
